@@ -66,19 +66,21 @@ CONSTANTS
   MaxChunks = %(maxchunks)d
   LossBudget = %(loss)d
   CountRule = %(rule)s
+  AppendToken = "%(apptok)s"
 %(extra)s
 CHECK_DEADLOCK %(deadlock)s
 """
 
 NDEF = {"N11": {"w1": 1, "w2": 1}, "N12": {"w1": 1, "w2": 2}, "N32": {"w1": 3, "w2": 2}, "N23": {"w1": 2, "w2": 3}, "N22": {"w1": 2, "w2": 2}, "N10": {"w1": 1, "w2": 0}, "N64": {"w1": 6, "w2": 4}}
-KDEF = {"KSetSet": {"w1": "set", "w2": "set"}, "KSetAdd": {"w1": "set", "w2": "add"}, "KSetRep": {"w1": "set", "w2": "replace"}}
+KDEF = {"KSetSet": {"w1": "set", "w2": "set"}, "KSetAdd": {"w1": "set", "w2": "add"}, "KSetRep": {"w1": "set", "w2": "replace"},
+        "KSetApp": {"w1": "set", "w2": "append"}, "KSetPre": {"w1": "set", "w2": "prepend"}}
 
 
-def ch_cfg(n, kind, readers=("r1",), loss=3, rule=True, trace=None, maxchunks=None, rkind="RGet"):
+def ch_cfg(n, kind, readers=("r1",), loss=3, rule=True, trace=None, maxchunks=None, rkind="RGet", apptok="fresh"):
     mc = maxchunks or max(NDEF[n].values()) or 1
     extra = "INVARIANTS AllOrNothing" if trace is None else '  TraceFile = "%s"' % trace
     return CH_CFG % dict(spec="Spec" if trace is None else "TSpec", readers=", ".join('"%s"' % r for r in readers), n=n, kind=kind, rkind=rkind,
-                         maxchunks=mc if trace is None else 8, loss=loss if trace is None else 99, rule="TRUE" if rule else "FALSE",
+                         maxchunks=mc if trace is None else 8, loss=loss if trace is None else 99, rule="TRUE" if rule else "FALSE", apptok=apptok,
                          extra=extra, deadlock="TRUE" if trace is None else "FALSE")
 
 
@@ -86,7 +88,8 @@ def check_c05(prop, tier, seed):
     run = Run(prop, tier, seed)
     quick = tier == "quick"
     # design
-    designs = [("N32", "KSetSet", ("r1",), 3), ("N23", "KSetAdd", ("r1",), 2), ("N22", "KSetRep", ("r1", "r2"), 1), ("N11", "KSetSet", ("r1", "r2"), 2)]
+    designs = [("N32", "KSetSet", ("r1",), 3), ("N23", "KSetAdd", ("r1",), 2), ("N22", "KSetRep", ("r1", "r2"), 1), ("N11", "KSetSet", ("r1", "r2"), 2),
+               ("N22", "KSetApp", ("r1", "r2"), 1), ("N23", "KSetPre", ("r1",), 2)]
     if not quick:
         designs += [("N64", "KSetSet", ("r1",), 7), ("N32", "KSetSet", ("r1", "r2"), 4), ("N10", "KSetSet", ("r1",), 2)]
     for n, k, rd, loss in designs:
@@ -97,7 +100,11 @@ def check_c05(prop, tier, seed):
     res = run.tlc("Chunked", ch_cfg("N32", "KSetSet", ("r1",), 3, rule=False), timeout=600, expect_violation=True, count=False)
     if not res.violated:
         raise Infra("negative control failed: without the count rule the model should violate AllOrNothing")
-    run.extra["negative_control"] = "a reader that does not compare chunk counts violates AllOrNothing in the model"
+    res = run.tlc("Chunked", ch_cfg("N22", "KSetApp", ("r1",), 0, apptok="old"), timeout=600, expect_violation=True, count=False)
+    if not res.violated:
+        raise Infra("negative control failed: an append that re-stores under the old token should violate AllOrNothing")
+    run.extra["negative_control"] = ("a reader that does not compare chunk counts violates AllOrNothing in the model; so does an append that re-stores "
+                                     "the grown value under the token of the value it read")
     # real code: one driver run + one validation per (N, Kind)
     exe = run.build_harness()
     plans = []
@@ -112,6 +119,12 @@ def check_c05(prop, tier, seed):
                              {"n": NDEF[n], "kind": KDEF[k], "readers": {"r1": "get"}, "losses": 1, "pre": ""}], 1000 if quick else 40000, ("r1",), "RGet"))
         plans.append((n, k, [{"n": NDEF[n], "kind": KDEF[k], "readers": {"r1": "gat"}, "losses": 0, "pre": ""},
                              {"n": NDEF[n], "kind": KDEF[k], "readers": {"r1": "gat"}, "losses": 1, "pre": ""}], 600 if quick else 40000, ("r1",), "RGat"))
+    # (c) an append / prepend on a stored value and readers (the re-store is a second write of the same key)
+    for n, k in (("N22", "KSetApp"), ("N23", "KSetApp"), ("N22", "KSetPre"), ("N11", "KSetApp")) + (() if quick else (("N12", "KSetPre"), ("N32", "KSetApp"), ("N64", "KSetApp"))):
+        if NDEF[n]["w2"] < NDEF[n]["w1"]:
+            continue  # an append never shrinks the value
+        plans.append((n, k, [{"n": NDEF[n], "kind": KDEF[k], "readers": {"r1": "get", "r2": "gat"}, "losses": 0, "pre": "w1"},
+                             {"n": NDEF[n], "kind": KDEF[k], "readers": {"r1": "get"}, "losses": 1, "pre": "w1"}], 800 if quick else 30000, ("r1", "r2"), "RGetGat"))
     procs = []
     for i, (n, k, progs, maxs, readers, rkind) in enumerate(plans):
         for j, p in enumerate(progs):
